@@ -1187,6 +1187,18 @@ theorem recurrence_rate_num_all_modes (rnd : Rat → Rat) (h0 : rnd 0 = 0) (emb 
       rw [seqX_vertline_eq_matrix rnd h0, gen_vertline_eq, vert_accounts_black, countIn_rowsOf,
         ← matSum_mv_eq_complete rnd h0]
 
+/-- hence **every scalar measure is the same in the two storage modes**: the numerators and
+denominators of DET / L / LAM / TT, the maximal lengths and the weights of the entropies are
+functions (`scalars`) of histograms that coincide -/
+theorem scalars_sparse_eq_matrix (rnd : Rat → Rat) (h0 : rnd 0 = 0) (emb : List (List X)) (eps : X)
+    (dim : Nat) (mv : Bool) (lmin : Nat) :
+    scalars lmin (diaglineMethod rnd ⟨emb, eps, dim, mv, true⟩)
+        = scalars lmin (diaglineMethod rnd ⟨emb, eps, dim, mv, false⟩) ∧
+      scalars lmin (vertlineMethod rnd ⟨emb, eps, dim, mv, true⟩)
+        = scalars lmin (vertlineMethod rnd ⟨emb, eps, dim, mv, false⟩) := by
+  rw [diagline_method_sparse_eq_matrix rnd h0, vertline_method_sparse_eq_matrix rnd h0]
+  exact ⟨rfl, rfl⟩
+
 /-- **accounting at the level of the methods**: in either storage mode `Σ l·P_v(l)` of
 `vertline_dist()` plus `Σ l·P_w(l)` of `white_vertline_dist()` (matrix mode) is `N²` — every
 recurrence point and every non-recurrence point lies on exactly one counted line -/
